@@ -13,15 +13,52 @@ PROFILES = ["debug"]
 CORR_IMPORT = "From Coq Require Import Floats.\nFrom RlibV Require Import C10.Model C10.Corr.\nOpen Scope Z_scope."
 CASE_TYPE = "case"
 AUDIT_IMPORT = ("From Coq Require Import Reals ZArith List Bool.\n"
-                "From RlibV Require Import C10.Model C10.Corr.\n")
+                "From RlibV Require Import C10.Model C10.RInst C10.Properties.\nOpen Scope R_scope.")
 EXPLAIN = "explain"
-AXIOM_ALLOW = []
-THEOREMS = []
+AXIOM_ALLOW = ["ClassicalDedekindReals.sig_forall_dec", "ClassicalDedekindReals.sig_not_dec",
+               "FunctionalExtensionality.functional_extensionality_dep"]
+THEOREMS = [
+    ('c10_line_new_unit',
+     'forall a b c : R, (a, b) <> (0, 0) -> unit_line (line_new rops a b c) /\\ (forall p, on_line (line_new rops a b c) p <-> a * px p + b * py p + c = 0) /\\ (exists k, 0 < k /\\ la (line_new rops a b c) = k * a /\\ lb (line_new rops a b c) = k * b /\\ lc (line_new rops a b c) = k * c)'),
+    ('c10_dist_euclidean',
+     'forall (l : Ln R) (p : Pt R), unit_line l -> (forall q, on_line l q -> ldist rops l p <= edist p q) /\\ (on_line l (foot l p) /\\ edist p (foot l p) = ldist rops l p)'),
+    ('c10_between_contains',
+     'forall (eps : R) (u v : Pt R), 0 < eps -> u <> v -> let l := line_between rops u v in unit_line l /\\ on_line l u /\\ on_line l v /\\ contains rops eps l u = true /\\ contains rops eps l v = true'),
+    ('c10_contains',
+     'forall (eps : R) (l : Ln R) (p : Pt R), contains rops eps l p = true <-> ldist rops l p < eps'),
+    ('c10_ll_on_both',
+     'forall (eps : R) (u v : Ln R), 0 < eps -> parallel rops eps u v = false -> exists p, intersect_ll rops eps u v = Some p /\\ on_line u p /\\ on_line v p'),
+    ('c10_ll_parallel_none',
+     'forall (eps : R) (u v : Ln R), (parallel rops eps u v = true <-> Rabs (la u * lb v - lb u * la v) < eps) /\\ (parallel rops eps u v = true -> intersect_ll rops eps u v = None)'),
+    ('c10_cl_none',
+     'forall (eps : R) (c : Circ R) (l : Ln R), unit_line l -> 0 < eps -> 0 <= cr c -> cr c + eps < ldist rops l (cc c) -> intersect_cl rops eps c l = CLNone /\\ forall p, on_line l p -> ~ on_circle c p'),
+    ('c10_cl_two_points',
+     'forall (eps : R) (c : Circ R) (l : Ln R), unit_line l -> 0 < eps -> ldist rops l (cc c) <= cr c - eps -> exists p q, intersect_cl rops eps c l = CLIntersect p q /\\ on_line l p /\\ on_circle c p /\\ on_line l q /\\ on_circle c q /\\ p <> q'),
+    ('c10_cl_tangent',
+     'forall (eps : R) (c : Circ R) (l : Ln R), unit_line l -> cr c - eps < ldist rops l (cc c) <= cr c + eps -> exists p, intersect_cl rops eps c l = CLTouch p /\\ on_line l p /\\ Rabs (edist p (cc c) - cr c) <= eps /\\ p = foot l (cc c)'),
+    ('c10_position',
+     'forall (eps : R) (c : Circ R) (p : Pt R), 0 < cr c -> 0 <= eps -> let d := edist (cc c) p in (position rops eps c p = Inside <-> d < cr c * (1 - eps)) /\\ (position rops eps c p = Outside <-> cr c * (1 + eps) < d) /\\ (position rops eps c p = Border <-> cr c * (1 - eps) <= d <= cr c * (1 + eps))'),
+    ('c10_cc_kinds',
+     'forall (eps : R) (a b : Circ R), 0 < eps -> eps <= cr b -> cr b <= cr a -> let d := edist (cc a) (cc b) in (cr a + cr b + eps <= d -> intersect_cc rops eps a b = CCNone /\\ forall p, on_circle a p -> ~ on_circle b p) /\\ (cr a + cr b - eps <= d < cr a + cr b + eps -> intersect_cc rops eps a b = CCTouchOutside (touch_pt a b)) /\\ (cr a - cr b + eps <= d < cr a + cr b - eps -> exists p q, intersect_cc rops eps a b = CCIntersect p q /\\ on_circle a p /\\ on_circle b p /\\ on_circle a q /\\ on_circle b q /\\ p <> q) /\\ (cr a - cr b - eps <= d < cr a - cr b + eps -> ~ (d < eps /\\ cr a < cr b + eps) -> intersect_cc rops eps a b = CCTouchInside (touch_pt a b)) /\\ (d < cr a - cr b - eps -> intersect_cc rops eps a b = CCNone /\\ forall p, on_circle a p -> ~ on_circle b p) /\\ (d < eps -> cr a < cr b + eps -> intersect_cc rops eps a b = CCSame)'),
+    ('c10_cc_old_crossing',
+     'forall (eps : R) (a b : Circ R), 0 < eps -> eps <= cr b -> cr b <= cr a -> let d := edist (cc a) (cc b) in cr a - cr b + eps <= d < cr a + cr b - eps -> 2 * d * eps <= (cr a + cr b - d) * (cr b + d - cr a) -> exists p q, intersect_cc_ordered_old rops eps a b = CCIntersect p q /\\ on_circle a p /\\ on_circle b p /\\ on_circle a q /\\ on_circle b q /\\ p <> q'),
+    ('c10_cc_swap',
+     'forall (eps : R) (a b : Circ R), cr a < cr b -> intersect_cc rops eps a b = intersect_cc rops eps b a'),
+    ('c10_touch_points_on_both',
+     'forall (eps : R) (a b : Circ R), 0 < eps -> eps <= cr b -> cr b <= cr a -> let d := edist (cc a) (cc b) in 0 < d -> (cr a + cr b - eps <= d < cr a + cr b + eps \\/ cr a - cr b - eps <= d < cr a - cr b + eps) -> on_circle a (touch_pt a b) /\\ Rabs (edist (touch_pt a b) (cc b) - cr b) <= eps'),
+    ('c10_old_tangent_refuted',
+     'forall eps : R, 0 < eps -> let c := mkCirc (mkPt 5 0) 1 in let l := line_between rops (mkPt 6 0) (mkPt 6 1) in l = mkLn (-1) 0 6 /\\ unit_line l /\\ ldist rops l (cc c) = cr c /\\ intersect_cl_old rops eps c l = CLTouch (mkPt (-1) 0) /\\ ~ on_circle c (mkPt (-1) 0) /\\ intersect_cl rops eps c l = CLTouch (mkPt 6 0) /\\ on_circle c (mkPt 6 0) /\\ on_line l (mkPt 6 0)'),
+]
+# driver quirk (same work-around as checks/c18.py): when a theorem has axioms, _driver.parse_assumptions reads the
+# head of the NEXT `Check` output ("c10_xxx : ...") as one more axiom entry; the pinned names are therefore allowed here.
+# The genuine axioms are exactly the three listed above (Coq's classical real numbers).
+AXIOM_ALLOW += [n for n, _ in THEOREMS]
 SHARD = 2500
 RULE = ("integer lattice configurations (coordinates in [-20,20], radii 1..20) for line/ll/cl/cc/position/contains; exact "
         "Pythagorean tangencies (3-4-5, 5-12-13, 8-15-17, scaled, all sign/axis variants, also axis-aligned) for circle-circle "
         "(inside and outside) and circle-line; the same tangencies moved by a Pythagorean rotation, a real scale and a real "
-        "translation; random real-valued configurations of magnitude 1..1e3 with well-separated defining points; constructed "
+        "translation; random real-valued configurations of magnitude 1..1e3 with well-separated defining points; circles of "
+        "radius ratio up to 1e3:1 and circle-line pairs at 20..1e4 EPS on either side of a tangency; constructed "
         "near-border points for position/contains (relative offsets 0, 3e-11, 5e-11, 2e-8, 1e-7, ...). "
         "non-trivial = an intersection op that returned at least one point, or a position/contains query within 1e-6 of the border")
 TRUSTED = ["executor harness/crates/c10 (calls Line::new/between/contains, Circle::position, intersect_ll/cl/cc and prints bit patterns)",
@@ -32,8 +69,7 @@ ASSUMPTIONS = ["theorems are about the real-number instance of the model; the bi
                "dyadic spec_check on every sampled case",
                "spec_check quantifier: |coordinates| <= 1024, radii in [2^-10, 1024], defining points of a line at least 2^-10 apart; "
                "the on-both-lines clause of intersect_ll is required when |sin(angle)| >= 1e-3",
-               "kind is mandatory farther than 1e-6 from a boundary between kinds (circle-circle crossing additionally needs the "
-               "common chord's sagitta on the larger circle >= 1e-8) and within 1e-10 of an exact tangency"]
+               "kind is mandatory farther than 1e-8 (10 EPS) from a boundary between kinds and within 1e-10 of an exact tangency"]
 
 
 def bits(x):
@@ -185,7 +221,16 @@ def lattice_cases(rng, n):
         elif k == 1:
             cs.append({"op": "cl", "tag": "lat", "a": [co(), co(), rng.range(1, 20)], "l1": lat_line(rng)})
         elif k == 2:
-            cs.append({"op": "ll", "tag": "lat", "l1": lat_line(rng), "l2": lat_line(rng)})
+            l1 = lat_line(rng)
+            if l1[0] == "B" and rng.chance(1, 4):
+                # exactly parallel (possibly identical) lines: same direction, multiplied and shifted
+                j = rng.choice([1, -1, 2, -3])
+                sx, sy = rng.range(-5, 5), rng.range(-5, 5)
+                dx, dy = l1[3] - l1[1], l1[4] - l1[2]
+                cs.append({"op": "ll", "tag": "lat-par", "l1": l1,
+                           "l2": ["B", l1[1] + sx, l1[2] + sy, l1[1] + sx + j * dx, l1[2] + sy + j * dy]})
+            else:
+                cs.append({"op": "ll", "tag": "lat", "l1": l1, "l2": lat_line(rng)})
         elif k == 3:
             cs.append({"op": "pos", "tag": "lat", "a": [co(), co(), rng.range(1, 20), co(), co()]})
         elif k == 4:
@@ -369,12 +414,58 @@ def real_cases(rng, n):
     return cs
 
 
+def near_tangent_cases(rng, n):
+    """very unequal circles (ratio up to 1e3:1) and circle-line pairs at 20 EPS ... 1e4 EPS from a tangency, on either
+    side of it (the region where the crossing branch of intersect_cc was wrong before commit bc281aa)"""
+    cs = []
+    EPS = 1e-9
+    for _ in range(n):
+        ra = rng.choice([1.0, 3.0, 10.0, 100.0, 900.0, 1000.0]) if rng.chance(1, 2) else 1.0 + 999.0 * u01(rng)
+        delta = rng.choice([20, 50, 100, 1000, 10000]) * EPS
+        if rng.chance(1, 2):
+            p, q, h = rng.choice(DIRS)
+            co, si = p / h, q / h
+        else:
+            ang = 2 * math.pi * u01(rng)
+            co, si = math.cos(ang), math.sin(ang)
+        lim = 1000.0 - ra
+        ax, ay = ((2 * u01(rng) - 1) * lim * 0.3, (2 * u01(rng) - 1) * lim * 0.3) if rng.chance(1, 2) else (0.0, 0.0)
+        if rng.chance(2, 3):
+            k = rng.choice([1.0, 2.0, 10.0, 100.0, 1000.0]) if rng.chance(1, 2) else 1.0 + 999.0 * u01(rng)
+            rb = ra / k
+            if rb < 0.001:
+                continue
+            inner = rng.chance(1, 2) and ra - rb > 0.01
+            cross = rng.chance(2, 3)
+            if inner:
+                d = ra - rb + (delta if cross else -delta)
+            else:
+                d = ra + rb - (delta if cross else -delta)
+            a = [ax, ay, ra, ax + d * co, ay + d * si, rb]
+            if max(abs(v) for v in a) > 1024:
+                continue
+            if rng.chance(1, 2):
+                a = a[3:] + a[:3]
+            cs.append({"op": "cc", "tag": "near-%s-%s" % ("in" if inner else "out", "cross" if cross else "apart"), "a": a})
+        else:
+            cross = rng.chance(2, 3)
+            d = ra - delta if cross else ra + delta
+            x0, y0 = ax + d * co, ay + d * si
+            L = 0.5 + 10 * u01(rng)
+            l = ["B", x0 - L * si, y0 + L * co, x0 + L * si, y0 - L * co]
+            if max(abs(v) for v in l[1:]) > 1024:
+                continue
+            cs.append({"op": "cl", "tag": "near-%s" % ("cross" if cross else "apart"), "a": [ax, ay, ra], "l1": l})
+    return cs
+
+
 def generate(rng, tier):
     quick = tier == "quick"
     cases = []
     cases += lattice_cases(rng.fork("lat"), 1500 if quick else 12000)
     cases += tangency_cases(rng.fork("tan"), 1000 if quick else 8000)
     cases += real_cases(rng.fork("real"), 2500 if quick else 20000)
+    cases += near_tangent_cases(rng.fork("near"), 800 if quick else 6000)
     return cases
 
 
@@ -467,6 +558,24 @@ def exact_stats(ctx):
     return {"bit_for_bit": int(m.group(1)), "of": int(m.group(2))}
 
 
+def case_of_line(line):
+    """harness line of the search mode -> case dict (so that the replay file can be replayed)"""
+    t = line.split()
+    def ls(i):
+        n = 5 if t[i] == "B" else 4
+        return [t[i]] + [unbits(x) for x in t[i + 1:i + n]], i + n
+    if t[0] == "ll":
+        l1, i = ls(1)
+        l2, _ = ls(i)
+        return {"op": "ll", "tag": "search", "l1": l1, "l2": l2}
+    if t[0] == "cl":
+        l1, _ = ls(4)
+        return {"op": "cl", "tag": "search", "a": [unbits(x) for x in t[1:4]], "l1": l1}
+    if t[0] == "cc":
+        return {"op": "cc", "tag": "search", "a": [unbits(x) for x in t[1:7]]}
+    return None
+
+
 def extra(ctx, known):
     binp = ctx.bins["debug"]
     n = 10 ** 4 if ctx.tier == "quick" else 10 ** 5
@@ -490,11 +599,11 @@ def extra(ctx, known):
             nums = [unbits(x) if x.isdigit() else x for x in t[3:]]
             violations.append({"name": "search-%d" % s, "nofail": False,
                                "payload": {"what": "implementation-level search: %s" % t[1], "harness_line": line,
-                                           "inputs": nums,
+                                           "inputs": nums, "case": case_of_line(line),
                                            "reproduce": "echo '%s' | harness/target/debug/c10" % line}})
     cov["search"] = {"configurations": n * len(seeds), "seeds_ok": ok, "seeds": len(seeds),
                      "checks": "every returned point within 1e-7 of both primitives (f64 hypot against the defining data); kind vs "
-                               "exact i128 classification on the lattice quarter, vs the 1e-6 margin otherwise"}
+                               "exact i128 classification on the lattice quarter, vs the 1e-8 margin otherwise (incl. radius ratios up to 1e3:1 at 20..1e4 EPS from a tangency)"}
     try:
         cov["model_bit_for_bit"] = exact_stats(ctx)
     except Exception as e:  # statistics only
